@@ -52,6 +52,14 @@ var ruleMonotone = &core.Rule{ID: "R17.1", Min: 90,
 				continue
 			}
 			v := eng.Analyse(n.DetFn)
+			if o := n.DetObj; !v.Monotone && o != nil && (n.DetCtor != nil || n.DetBind != nil) {
+				// a detector variable: its closure may be a combinator over other detectors
+				if sp := c.SSA[o.Pkg().Path()]; sp != nil {
+					if g, ok := sp.Members[o.Name()].(*ssa.Global); ok {
+						v = eng.AnalyseGlobal(g, n.DetFn)
+					}
+				}
+			}
 			switch {
 			case v.Monotone && len(v.Handover) == 0:
 				s.OK(key, c.Pos(n.Pos), "monotone ("+v.Kind+") "+core.FName(n.DetFn))
